@@ -46,7 +46,10 @@ Window(p, i) ==
   IN [link |-> L, ae |-> p[i][3],
       ce |-> TimeAt(p, ClearOf(p, i, L)),
       ax |-> IF na = 0 THEN ExitT(p) ELSE p[na][3],
-      cx |-> IF na = 0 THEN ExitT(p) ELSE TimeAt(p, ClearOf(p, na, p[na][2]))]
+      \* the tail leaves L when it passes the entry of the next link; a train longer than the rest of its route has
+      \* no such event (no Clear node for the next link in its plan at all): it then holds L until it leaves the network
+      cx |-> IF na = 0 THEN ExitT(p)
+             ELSE LET c == ClearOf(p, na, p[na][2]) IN IF c = 0 THEN ExitT(p) ELSE p[c][3]]
 Windows(p) == {Window(p, i) : i \in ArrIdx(p)}
 
 Overlap(a, b) == a.ae < b.cx /\ b.ae < a.cx
